@@ -232,6 +232,10 @@ func c18prop(ev *evid.Rec) func(rt *rapid.T) {
 			}
 			container := func(label string) ([]string, *nnode) {
 				ps := append([][]string{nil}, s.paths(2)...)
+				// (a client other than the stock one may also create below a category: the path names an item, that is all)
+				if cs := s.paths(3); len(cs) > 0 && rapid.IntRange(0, 5).Draw(s.rt, label+"_belowCategory") == 0 {
+					ps = cs
+				}
 				p := ps[rapid.IntRange(0, len(ps)-1).Draw(s.rt, label)]
 				if len(p) >= 3 {
 					p = nil
@@ -277,10 +281,17 @@ func c18prop(ev *evid.Rec) func(rt *rapid.T) {
 				"post": func(rt *rapid.T) {
 					s.rt = rt
 					p, ok := s.drawPath("cat", 3)
+					if bs := s.paths(2); len(bs) > 0 && rapid.IntRange(0, 7).Draw(rt, "postToBundle") == 0 {
+						// (... or post to a path that names a bundle: it holds the article like a category would)
+						p, ok = bs[rapid.IntRange(0, len(bs)-1).Draw(rt, "bundle")], true
+					}
 					if !ok {
 						rt.Skip()
 					}
 					n := s.node(p)
+					if n.arts == nil {
+						n.arts = map[uint32]*nart{}
+					}
 					title := c18Text(rt, "title", 255)
 					bodyLen := rapid.SampledFrom([]int{0, 1, 50, 500, 5000, 60000}).Draw(rt, "bodylen")
 					body := string(genBytes(rt, "body", bodyLen))
